@@ -2,6 +2,8 @@ package flows
 
 import (
 	"fmt"
+	"maps"
+	"slices"
 	"sort"
 	"strings"
 
@@ -162,7 +164,7 @@ func NewFieldValues(a SessionAssets, values map[string]*Value, missing assets.Mi
 	}
 
 	// log any unmatched field keys as missing assets
-	for key := range values {
+	for _, key := range slices.Sorted(maps.Keys(values)) {
 		_, valid := fieldValues[key]
 		if !valid {
 			missing(assets.NewFieldReference(key, ""), nil)
